@@ -150,11 +150,6 @@ def parseF64 (s : String) : Option Float :=
 def showF64 (x : Float) : String := toString x.toBits.toNat
 def f64Eq (a b : Float) : Bool := a == b
 
-def costMul (ovf : String) : Option (Cost.V → Cost.V → Option Cost.V) :=
-  if ovf == "wrap" then some (fun a b => some (Cost.mulWrapping a b))
-  else if ovf == "panic" then some Cost.mulChecked
-  else none
-
 def showOpt {S : Type} (sh : S → String) : Option S → String
   | some x => sh x
   | none => "panic"
@@ -177,7 +172,7 @@ def runSr (args : List String) : Option String :=
   | ["co", "zero"] => some (showCost Cost.zero)
   | ["co", "one"] => some (showCost Cost.one)
   | ["co", "add", a, b] => do some (showCost (Cost.add (← parseCostV a) (← parseCostV b)))
-  | ["co", "mul", a, b, ovf] => do some (showOpt showCost ((← costMul ovf) (← parseCostV a) (← parseCostV b)))
+  | ["co", "mul", a, b] => do some (showOpt showCost (Cost.mul (← parseCostV a) (← parseCostV b)))
   | ["cs", "zero"] => some (showF64 ConfidenceScore.zero)
   | ["cs", "one"] => some (showF64 ConfidenceScore.one)
   | ["cs", "new", a] => do some (if F64.inUnit (← parseF64 a) then "ok" else "panic")
@@ -200,8 +195,8 @@ def runSrLaw (args : List String) : Option String :=
   | ["mu", a, b, c] => do
       some (lawString (· == ·) Multiplicity.add Multiplicity.mul Multiplicity.zero Multiplicity.one
         (← parseU32 a) (← parseU32 b) (← parseU32 c))
-  | ["co", a, b, c, ovf] => do
-      some (lawString (· == ·) (total Cost.add) (← costMul ovf) Cost.zero Cost.one
+  | ["co", a, b, c] => do
+      some (lawString (· == ·) (total Cost.add) Cost.mul Cost.zero Cost.one
         (← parseCostV a) (← parseCostV b) (← parseCostV c))
   | ["cs", a, b, c] => do
       let (a, b, c) := (← parseF64 a, ← parseF64 b, ← parseF64 c)
